@@ -28,16 +28,19 @@ def main(n, seed):
     rnd = random.Random(seed)
     fails, distinct = [], set()
 
-    def build(files):
+    def build(files, hashless_dirs=False):
         idx = DataIndex()
         entries = {}
         dirs = {k[:j] for k in files for j in range(1, len(k))}
         for d in sorted(dirs):
             sub = sorted((k, v) for k, v in files.items() if k[: len(d)] == d)
             h = hashlib.md5(repr([(k[len(d):], v[0]) for k, v in sub]).encode()).hexdigest() + ".dir"  # listing = hashes only
-            entries[d] = DataIndexEntry(key=d, meta=Meta(isdir=True), hash_info=HashInfo("md5", h), loaded=True)
+            # directory entries as a loaded tree object leaves them: metadata only, no hash
+            entries[d] = DataIndexEntry(key=d, meta=Meta(isdir=True), hash_info=None if hashless_dirs else HashInfo("md5", h), loaded=True)
         for k, v in files.items():
-            entries[k] = DataIndexEntry(key=k, meta=Meta(size=int(v[0]), isexec=v.endswith("x")), hash_info=HashInfo("md5", v[0] * 32))
+            # content digit 3 doubles as "never hashed": an entry without hash information
+            entries[k] = DataIndexEntry(key=k, meta=Meta(size=int(v[0]), isexec=v.endswith("x")),
+                                        hash_info=None if (hashless_dirs and v[0] == "3") else HashInfo("md5", v[0] * 32))
         for k, e in entries.items():
             idx[k] = e
         return idx, entries
@@ -54,13 +57,20 @@ def main(n, seed):
         wu, ho, wr = rnd.random() < 0.5, rnd.random() < 0.4, rnd.random() < 0.4
         mo = (not ho) and (not wr) and rnd.random() < 0.25
         distinct.add((tuple(sorted(fo.items())), tuple(sorted(fn.items())), wu, ho, wr, mo))
-        old, eo = build(fo)
-        new, en = build(fn)
+        hl = rnd.random() < 0.3
+        old, eo = build(fo, hl)
+        new, en = build(fn, hl)
+        # restricting the diff to some roots (disjoint top-level keys that exist on either side)
+        tops = sorted({k[:1] for k in set(eo) | set(en)})
+        roots = rnd.sample(tops, rnd.randint(1, len(tops))) if (tops and not wr and rnd.random() < 0.25) else None
         problem = None
         try:
-            got = list(diff(old, new, with_unchanged=wu, hash_only=ho, with_renames=wr, meta_only=mo))
+            kw = {"roots": roots} if roots is not None else {}
+            got = list(diff(old, new, with_unchanged=wu, hash_only=ho, with_renames=wr, meta_only=mo, **kw))
             exp = Counter()
             for k in set(eo) | set(en):
+                if roots is not None and not any(k[: len(r)] == r for r in roots):
+                    continue
                 t = _diff_entry(eo.get(k), en.get(k), hash_only=ho, meta_only=mo)
                 if t == UNCHANGED and not wu:
                     continue
@@ -94,9 +104,9 @@ def main(n, seed):
             problem = "raised " + repr(e)
         if problem:
             fails.append({"old": {"/".join(k): v for k, v in fo.items()}, "new": {"/".join(k): v for k, v in fn.items()},
-                          "with_unchanged": wu, "hash_only": ho, "meta_only": mo, "with_renames": wr, "problem": problem})
+                          "with_unchanged": wu, "hash_only": ho, "meta_only": mo, "with_renames": wr, "hashless": hl, "roots": roots, "problem": problem})
     return {"evaluations": n, "distinct_nontrivial": len(distinct), "failures": fails[:3], "n_failures": len(fails),
-            "bound": "keys over {a,b,c}, depth <= 3, <= 6 files per side, explicit hashed directory entries, metadata-only changes, hash_only / meta_only / renames / with_unchanged"}
+            "bound": "keys over {a,b,c}, depth <= 3, <= 6 files per side, explicit hashed directory entries, metadata-only changes, entries without hash, hash_only / meta_only / renames / with_unchanged / roots"}
 
 
 if __name__ == "__main__":
